@@ -100,6 +100,13 @@ def gen_harnesses(tier, seed):
        "s: str", "s", "len(s) <= 3", prelude=PRE + "\nfrom ovld.types import Union, Intersection", extra_static=("str", "object"), warm=("'az'", "'bz'", "'xy'", "'q'"))
     vm("c11_tuple_of_tuple", [("tuple[tuple[int, int]]", "isinstance(v, tuple) and len(v) == 1 and isinstance(v[0], tuple) and len(v[0]) == 2 and isinstance(v[0][0], int) and isinstance(v[0][1], int)")],
        "a: int, k: int", "((a,), (a, a))[k % 2]", None, extra_static=("tuple", "object"), warm=("((1, 2),)", "((1, 'a'),)", "(1,)"))
+    vm("c11_dep_and_static_in_union", [("(Regexp['a'] & str) | int", "(isinstance(v, str) and _re.search('a', v) is not None) or isinstance(v, int)")],
+       "a: int, s: str, k: int", "(a, s)[k % 2]", "len(s) <= 2", prelude=PRE, extra_static=("object",), warm=("3", "'a'", "'b'"))
+    vm("c11_tuple_ellipsis", [("tuple[int, ...]", "isinstance(v, tuple) and (not v or isinstance(v[0], int))")],
+       "a: int, s: str, k: int", "((a,), (a, a, a), (s, a), (), (a, s))[k % 5]", "len(s) <= 2", extra_static=("tuple", "object"),
+       warm=("(1,)", "(1, 2, 3)", "('a', 1)", "()"))
+    vm("c11_literal_or_classcheck", [("Literal['a'] | HasMethod['lower']", "hasattr(type(v), 'lower') or (isinstance(v, str) and v == 'a')")],
+       "a: int, s: str, k: int", "(a, s)[k % 2]", "len(s) <= 2", prelude=PRE + "\nfrom ovld.types import HasMethod", extra_static=("object",), warm=("'a'", "'b'", "3"))
     vm("c11_regexp", [("Regexp['a+b']", "isinstance(v, str) and _re.search('a+b', v) is not None")],
        "s: str", "s", "len(s) <= 3", prelude=PRE, extra_static=("str", "object"), warm=("'ab'", "'b'", "'xab'"))
     vm("c11_haskey", [("HasKey['a']", "isinstance(v, dict) and 'a' in v"), ("HasKey['a', 'b']", "isinstance(v, dict) and 'a' in v and 'b' in v")],
